@@ -239,7 +239,7 @@ def emit(name, params, val, out):
     out.append('Definition %s %s : %s := %s.' % (name, ' '.join('(%s : Z)' % p for p in params), ty, val.s))
 
 
-def translate(repo):
+def translate(repo, only=None):
     src = os.path.join(repo, 'src', 'libertem_blobfinder')
     out = ['(* GENERATED by harness/translate.py from %s -- do not edit *)' % src,
            'From Coq Require Import ZArith Bool.', 'Open Scope Z_scope.', '']
@@ -363,7 +363,8 @@ def translate(repo):
             emit('gen_px_' + nm, ['fy', 'fx', 'c', 'py', 'px', 'y', 'x'], tr.env.get(nm), out)
 
     for t in (t_buf_count, t_blocks_fast, t_blocks_full, t_slicing, t_padcrop, t_refine_clip, t_shift, t_crop_px):
-        do(t)
+        if only is None or t.__name__ in only:
+            do(t)
     return '\n'.join(out) + '\n', problems
 
 
